@@ -5,6 +5,6 @@ SPEC_PART = dict(
     trusted=[], assumptions=[],
     covers="theta: retained <= 15/16 * 2^(lg_k+1) after every operation of every history, = min(n, k) after trim; "
            "|serialize()| = 8*preamble_longs + 8*retained <= 24 + 8*15/16*2^(lg_k+1). Tie: retained count and both image sizes "
-           "after every power-of-two prefix of streams up to 2^17 (quick) / 2^22 (thorough) items, distinct / repeated / descending; "
+           "after every power-of-two prefix of streams up to 2^17 (quick) / 2^20 (thorough) items, distinct / repeated / descending; "
            "and trim() on never-rebuilt sketches holding k+1, 1.5k, cap-1 and cap distinct values (cap = 15/16*2k), with repeats: "
            "retained = k afterwards (min(n, k) is part of the kmv_ok and size_ok oracles)")
